@@ -252,13 +252,35 @@ func checkImportTable(imports map[string]string, wantPaths map[string]bool) erro
 }
 
 func oracleC03Tracker(c c3Case) error {
+	// the snippet values are built once and rendered into two different files (writers with their own tracker and target
+	// package), the way a generator with a shared package-level snippet would use them
+	built := make([]snippet.Snippet, len(c.Refs))
+	usedBy := make([][]int, len(c.Refs))
+	for i, r := range c.Refs {
+		built[i], usedBy[i] = c.build(r)
+	}
+	if err := c3RenderFile(c, c.Target, built, usedBy); err != nil {
+		return err
+	}
+	second := "example.com/mod/second"
+	if len(c.Paths) > 1 {
+		second = c.Paths[len(c.Paths)-1] // a package that is itself referenced: its own types must come out unqualified there
+	}
+	if err := c3RenderFile(c, second, built, usedBy); err != nil {
+		return fmt.Errorf("second file (target %s, same snippet values): %w", second, err)
+	}
+	return nil
+}
+
+func c3RenderFile(c c3Case, target string, built []snippet.Snippet, usedBy [][]int) error {
+	c.Target = target
 	tracker := namer.NewDefaultImportTracker()
 	buf := &bytes.Buffer{}
 	w := gengo.NewSnippetWriter(buf, namer.NameSystems{"raw": namer.NewRawNamer(c.Target, tracker)})
 	want := map[string]bool{}
 	texts := make([]string, len(c.Refs))
 	for i, r := range c.Refs {
-		sn, used := c.build(r)
+		sn, used := built[i], usedBy[i]
 		buf.Reset()
 		if p := ev.Panics(func() { w.Render(sn) }); p != nil {
 			return fmt.Errorf("rendering ref %d (%+v, path %q) panics: %v", i, r, c.Paths[r.P], p)
@@ -314,8 +336,8 @@ func oracleC03Tracker(c c3Case) error {
 	for k, v := range tracker.Imports() {
 		snapshot[k] = v
 	}
-	for i, r := range c.Refs {
-		sn, _ := c.build(r)
+	for i := range c.Refs {
+		sn := built[i]
 		buf.Reset()
 		if p := ev.Panics(func() { w.Render(sn) }); p != nil {
 			return fmt.Errorf("second rendering of ref %d panics: %v", i, p)
